@@ -387,6 +387,28 @@ Proof.
 Qed.
 Print Assumptions C07_binding_as_coded.
 
+(* ... hence, for the code as it is now: for every mode and parameter space, every set of distinct keys, every run
+   function and EVERY completion order, the parallel result and the sequential result are the same label -> data map *)
+Theorem C07_parallel_equals_sequential_as_coded :
+  forall (B : Type) (f : list (option pval) -> B) (keys : list nat) (m : mode),
+  NoDup keys -> mode_wf (length keys) m ->
+  exists sh cells,
+    dask_params_cfg src_cfg m = Some (sh, cells)
+    /\ length cells = prodn sh
+    /\ (forall t, In t cells <-> In t (seq_params m))
+    /\ forall completion,
+         Permutation completion (dask_tasks (cfg_bind src_cfg) keys keys keys cells) ->
+         forall t r, In (t, Some r) (dask_result f cells completion) <-> In (t, r) (seq_result f m).
+Proof.
+  intros B f keys m Hnd Hwf.
+  destruct (C07_parallel_equals_sequential B f src_cfg keys keys keys keys keys m
+              C07_sequential_as_coded C07_product_as_coded C07_custom_as_coded (proj1 C07_binding_as_coded) Hnd Hwf
+              (fun _ => eq_refl) (fun _ => eq_refl) (fun _ => eq_refl) (fun _ => eq_refl))
+    as (sh & cells & E & L & S & _ & R).
+  exists sh, cells. repeat split; try assumption; try apply S; apply (R completion H).
+Qed.
+Print Assumptions C07_parallel_equals_sequential_as_coded.
+
 (* the schedule theorems of section 2 speak about the code as it is now: tasks own one cell each and the file index
    is the row-major position (C07_schedule_independent, C07_rank_bijective), islands are pushed in submission order
    (C07_island_order), the batch evaluator cuts and re-joins row-major with chunks of >= 1 row (C07_bfe_chunking) *)
